@@ -62,3 +62,12 @@ Proof. vm_compute. reflexivity. Qed.
 Example equal_size_returns :
   on_graph ex_dg (fun g => bfs_equal_size_partitions g 2) (Err WrongMethod) = Ok [[9; 0; 1; 2]; [3; 4]].
 Proof. vm_compute. reflexivity. Qed.
+
+(* C10_connected(_checked) / C10_weak(_checked): graphs meeting the coherence hypotheses *)
+Example connected_hypotheses :
+  on_graph ex_ug (fun g => step_ok_b Z.eqb g && is_ok (connected_components Z.eqb g)) false = true.
+Proof. vm_compute. reflexivity. Qed.
+
+Example weak_hypotheses :
+  on_graph ex_dg (fun g => wstep_ok_b Z.eqb g && is_ok (weakly_connected_components Z.eqb g)) false = true.
+Proof. vm_compute. reflexivity. Qed.
